@@ -4,6 +4,7 @@
 #include <asl/Var.h>
 #include <stdio.h>
 #include <stdlib.h>
+#include <string.h>
 #include <string>
 using namespace asl;
 static std::string unhex(const char* h) { std::string r; if (h[0] == '-') return r; for (size_t i = 0; h[i] && h[i + 1]; i += 2) { char b[3] = { h[i], h[i + 1], 0 }; r.push_back((char)strtoul(b, 0, 16)); } return r; }
@@ -62,6 +63,11 @@ int main(int argc, char** argv)
 				if (!(w == whole) || !w.ok()) { printf("REPRODUCED feeding document %u in two chunks cut at %d differs from feeding it whole\n", d, (int)cut); return 1; } } } }
 		// the JSON two-character escapes
 		{ Var v = Json::decode("[\"\\\" \\\\ \\/ \\b \\f \\n \\r \\t\"]"); if (!v.ok() || v.length() != 1 || std::string(*v[0].toString()) != "\" \\ / \b \f \n \r \t") { printf("REPRODUCED JSON escapes do not decode to their characters\n"); return 1; } }
+		// floats and doubles come back bit-exact in exact mode: neighbours of powers of 2 and 10, and a sweep of bit patterns
+		{ unsigned x = 0x12345678u; for (int i = 0; i < 60000; i++) { x = x * 1664525u + 1013904223u; unsigned bits = (i % 3 == 0) ? x : (i % 3 == 1) ? (0x3f800000u + (x & 0x7fffffu)) : (0x447a0000u + (x & 0xffffu)); float f; memcpy(&f, &bits, 4);
+			if (f != f || f - f != 0) continue; Var v = Var::ARRAY; v << f; Var back = Json::decode(Json::encode(v)); float g = (float)(double)back[0]; if (memcmp(&f, &g, 4) != 0) { printf("REPRODUCED float %.9g (bits %08x) comes back as %.9g\n", f, bits, g); return 1; } }
+		  unsigned long long y = 0x9E3779B97F4A7C15ull; for (int i = 0; i < 20000; i++) { y = y * 6364136223846793005ull + 1442695040888963407ull; double d; memcpy(&d, &y, 8); if (d != d || d - d != 0) continue;
+			Var v = Var::ARRAY; v << d; Var back = Json::decode(Json::encode(v)); double g = (double)back[0]; if (memcmp(&d, &g, 8) != 0) { printf("REPRODUCED double %.17g comes back as %.17g\n", d, g); return 1; } } }
 		// files: every size 0..8 with and without BOM
 		{ const char* texts[] = { "", "7", "[]", "[1]", "\"ab\"", "[1,2]", "{\"a\":1}", "\"\xC2\xBFx\"", "[\"\xC2\xBB\"]", "\"\xEF\xBB\"" };
 		  for (unsigned i = 0; i < sizeof(texts) / sizeof(texts[0]); i++) for (int bom = 0; bom < 2; bom++) { std::string t = std::string(bom ? "\xEF\xBB\xBF" : "") + texts[i]; String path = "/tmp/vf_c05_battery.json";
